@@ -160,6 +160,7 @@ def run(ck, facts, tier):
                      "`%s { .. }` constructed outside the reviewed constructors (shape invariant not established here)" % adt,
                      "%s:%s" % (rec["file"] if rec else "?", ln), sample=why)
 
+    shape_rule(ck, facts)
     ck.not_decided += [
         "aborts inside dependencies on inputs outside the documented ranges (dates beyond chrono's range, > 2^63 elements)",
         "allocation failure; stack depth of the recursive FX fill-in and the B-spline recursion",
@@ -190,3 +191,101 @@ def call_path(P, target, limit=6):
         path.append(hir.short(f))
         f = prev.get(f)
     return path
+
+
+# ---------------------------------------------------------------- R20.6
+def shape_rule(ck, facts):
+    """Every Ok path of a validating constructor / loader returns a value whose shape invariant is true by construction or by a condition of that path."""
+    import cel, paths
+    from cel import Poly, Rec, Sym, Tup, Unsupported, vkey, length_of
+    r6 = ck.rule("R20.6", "every Ok path of a validating constructor or loader returns a value whose shape invariant holds by construction or is a condition of that path "
+                          "(|vars| = |dual|; dual2 is |vars| x |vars|; currency name 3 bytes; pair currencies distinct; n = |t| - k, |c| = n, t non-decreasing) — and at "
+                          "least one Err path exists for each such condition", floor=7)
+    D1, D2 = "dual::dual::Dual", "dual::dual::Dual2"
+
+    def inv_dual(x, num):
+        """[(condition value)] that must hold: each is a cel value for an equality"""
+        n = length_of(x.fields["vars"])
+        out = [cel.cmp_sym("Eq", n, length_of(cel.num(x.fields["dual"])))]
+        if num == D2:
+            d2 = x.fields["dual2"]
+            d2n = cel.num(d2)
+            if isinstance(d2, cel.Arr) and not d2.writes:
+                out += [cel.cmp_sym("Eq", d2.dims[0], n), cel.cmp_sym("Eq", d2.dims[1], n)] if all(isinstance(d, Poly) for d in d2.dims) else [Sym("unknown-dims")]
+            elif isinstance(d2n, Poly) and d2n.order == 2 and d2n.is_zero():
+                out += []          # zero tensor from zeros(shape): shape recorded separately below
+            elif isinstance(d2, Sym) and d2.tag[0] == "m" and d2.tag[1] in ("unwrap", "expect") and isinstance(d2.tag[2], tuple) and d2.tag[2][:3] == ("sym", "m", "into_shape_with_order"):
+                shape = d2.tag[2][4][0]
+                out += [Sym("shape-is", shape == ("tup", (n.key(), n.key())))]
+            else:
+                out += [Sym("cmp", "Eq", vkey(Sym("m", "dim", vkey(d2), ())), vkey(Tup([n, n])))]
+        return out
+
+    def run_case(key, fn, args, leaf_invariants, where_fn=None):
+        r = facts.fn(fn)
+        where = "%s:%d" % (r["file"], r["line"]) if r else None
+        if r is None:
+            ck.fail(r6, key, "function not found: " + fn)
+            return
+        try:
+            ev = cel.Ev(facts)
+            got = ev.apply_fn(fn, args, 0)
+            ps = paths.flatten(got)
+            oks = [(c, v) for c, v in ps if isinstance(v, Sym) and v.tag[:2] == ("ctor", "Ok")]
+            errs = [(c, v) for c, v in ps if isinstance(v, Sym) and v.tag[:2] == ("ctor", "Err")]
+            ok = bool(oks)
+            why = "no Ok path"
+            needed = set()
+            for c, v in oks:
+                x = v.tag[2]
+                for cond in leaf_invariants(x):
+                    if isinstance(cond, Sym) and cond.tag == ("bool", "true"):
+                        continue
+                    if isinstance(cond, Sym) and cond.tag[0] == "shape-is":
+                        if cond.tag[1] is True:
+                            continue
+                        ok, why = False, "reshape target is not (|vars|, |vars|)"
+                        continue
+                    atom = paths.norm_cond(("if", vkey(cond)))
+                    needed.add(atom)
+                    if atom not in c:
+                        ok, why = False, "an Ok path returns a value whose invariant `%s` is neither true by construction nor a condition of the path" % repr(vkey(cond))[:260]
+            for a, pol in needed:
+                if not any((a, not pol) in c for c, _ in errs):
+                    ok, why = False, "no Err path rejects the violation of `%s`" % repr(a)[:200]
+            ck.check(r6, key, ok, why, where, sample="%d Ok path(s), %d Err path(s); invariants on every Ok path" % (len(oks), len(errs)))
+        except Unsupported as e:
+            ck.fail(r6, key, "rule could not be established (%s)" % e, where)
+
+    VARS, DUAL, DUAL2 = Sym("param", "vars"), Sym("param", "dual"), Sym("param", "dual2")
+    run_case("Dual::try_new", "dual::dual::Dual::try_new", [Poly.atom("real"), VARS, DUAL], lambda x: inv_dual(x, D1))
+    run_case("Dual2::try_new", "dual::dual::Dual2::try_new", [Poly.atom("real"), VARS, DUAL, DUAL2], lambda x: inv_dual(x, D2))
+    m1 = Rec("dual::dual::DualDataModel", {"real": Poly.atom("r"), "vars": Sym("field", "vars"), "dual": Sym("field", "dual")})
+    run_case("Dual::try_from(model)", "<dual::dual::Dual as std::convert::TryFrom<dual::dual::DualDataModel>>::try_from", [m1], lambda x: inv_dual(x, D1))
+    m2 = Rec("dual::dual::Dual2DataModel", {"real": Poly.atom("r"), "vars": Sym("field", "vars"), "dual": Sym("field", "dual"), "dual2": Sym("field", "dual2")})
+    run_case("Dual2::try_from(model)", "<dual::dual::Dual2 as std::convert::TryFrom<dual::dual::Dual2DataModel>>::try_from", [m2], lambda x: inv_dual(x, D2))
+
+    def inv_ccy(x):
+        nm = x.fields.get("name")
+        if isinstance(nm, Sym) and nm.tag[:2] == ("call", "internment::Intern::<T>::new"):
+            inner = nm.tag[2][0]
+            return [cel.cmp_sym("Eq", Poly.atom(("len", inner, None)), Poly.const(3))]
+        return [Sym("name-not-interned")]
+    run_case("Ccy::try_new", "fx::rates::ccy::Ccy::try_new", [Sym("param", "name")], inv_ccy)
+
+    def inv_pair(x):
+        # FXPair(a, b): a != b must be a path condition
+        if isinstance(x, Sym) and x.tag[:2] == ("ctor", "FXPair") and len(x.tag) == 4:
+            a, b = x.tag[2], x.tag[3]
+            return [Sym("not", vkey(eq_value(a, b)))]
+        return [Sym("not-a-pair")]
+
+    def eq_value(a, b):
+        # derived PartialEq of Ccy compares the interned names
+        na = a.fields["name"] if isinstance(a, Rec) else Sym("field", vkey(a), "name")
+        nb = b.fields["name"] if isinstance(b, Rec) else Sym("field", vkey(b), "name")
+        return Sym("cmp", "Eq", vkey(na), vkey(nb))
+    run_case("FXPair::try_new", "fx::rates::fxpair::FXPair::try_new", [Sym("param", "lhs"), Sym("param", "rhs")], inv_pair)
+    pm = Sym("ctor", "FXPairDataModel", Sym("m0"), Sym("m1"))
+    run_case("FXPair::try_from(model)", "<fx::rates::fxpair::FXPair as std::convert::TryFrom<fx::rates::fxpair::FXPairDataModel>>::try_from", [pm],
+             lambda x: [Sym("not", vkey(Sym("cmp", "Eq", vkey(x.tag[2]), vkey(x.tag[3]))))] if isinstance(x, Sym) and x.tag[:2] == ("ctor", "FXPair") and len(x.tag) == 4 else [Sym("not-a-pair")])
